@@ -491,6 +491,75 @@ def rule_order(ctx, px, ts):
                 ctx.ob(R, t.rel, f"{xs(node)} @ {j2front.construct_path(stack)}", ok, "" if ok else why, node.lineno)
 
 
+LOSSY_CALLS = {"int", "float", "len", "abs", "round", "bool"}
+LOSSY_METHODS = {"lower", "upper", "casefold", "strip", "lstrip", "rstrip", "title", "capitalize", "isdigit"}
+
+
+def rule_sort_keys(ctx, px):
+    R = "R-C07-SORT-KEY"
+    ctx.rule(
+        R,
+        "a sort whose job is to erase hash order must order distinct elements totally: its key may not be a lossy "
+        "image of the element (int(), lower(), len() ...) unless the raw value takes part in the key as a tie-breaker; "
+        "otherwise equal keys keep the arbitrary input order",
+    )
+    n = 0
+    for f in px.all_funcs:
+        if not f.module.name.startswith("nunavut.lang"):
+            continue
+        for c in ast.walk(f.node):
+            if not (isinstance(c, ast.Call) and effects.dotted(c.func) == "sorted"):
+                continue
+            kw = {k.arg: k.value for k in c.keywords}
+            if "key" not in kw:
+                continue
+            n += 1
+            key = kw["key"]
+            # resolve the key callable: lambda, or a local def
+            body = None
+            params = []
+            if isinstance(key, ast.Lambda):
+                body, params = key.body, [a.arg for a in key.args.args]
+            elif isinstance(key, ast.Name):
+                for d in ast.walk(f.node):
+                    if isinstance(d, ast.FunctionDef) and d.name == key.id:
+                        rets = [r.value for r in ast.walk(d) if isinstance(r, ast.Return) and r.value is not None]
+                        body = ast.Tuple(elts=rets, ctx=ast.Load()) if len(rets) != 1 else rets[0]
+                        body._def = d  # type: ignore
+                        params = [a.arg for a in d.args.args]
+            if body is None:
+                ctx.ob(R, f.module.rel, f"{f.short} :: sorted(..., key={ast.unparse(key)})", True, "key is an attribute/function reference (not analysed further)", c.lineno)
+                continue
+
+            def lossy(node, depth=0):
+                for x in ast.walk(node):
+                    if isinstance(x, ast.Call):
+                        d = effects.dotted(x.func)
+                        if d in LOSSY_CALLS:
+                            return True
+                        if isinstance(x.func, ast.Attribute) and x.func.attr in LOSSY_METHODS:
+                            return True
+                        # a call to a local function defined in f: look inside once
+                        if depth < 1 and isinstance(x.func, ast.Name):
+                            for dd in ast.walk(f.node):
+                                if isinstance(dd, ast.FunctionDef) and dd.name == x.func.id and lossy(dd, depth + 1):
+                                    return True
+                return False
+
+            whole = getattr(body, "_def", body)
+            is_lossy = lossy(whole)
+            tie_broken = False
+            if isinstance(body, ast.Tuple) and len(body.elts) >= 2:
+                # some component must be non-lossy (raw key)
+                tie_broken = any(not lossy(e) for e in body.elts)
+            ok = (not is_lossy) or tie_broken
+            ctx.ob(R, f.module.rel, f"{f.short} :: sorted(..., key={ast.unparse(key)[:60]})", ok,
+                   ("raw value is part of the key" if tie_broken else "key is not lossy") if ok else
+                   "the key is a lossy image of the element (e.g. int('01') == int('1')): elements with equal keys keep the order of the "
+                   "hash-ordered input, so the output depends on PYTHONHASHSEED", c.lineno)
+    ctx.floor(R, n, 1)
+
+
 def run(ctx):
     ctx.explanation = (
         "C07 is decided structurally: the analyser enumerates every read of ambient state in the Python package "
@@ -512,3 +581,4 @@ def run(ctx):
     rule_platform_version(ctx, px)
     rule_ambient_py(ctx, px)
     rule_order(ctx, px, ts)
+    rule_sort_keys(ctx, px)
